@@ -556,7 +556,7 @@ def run_model(case):
         tb = traceback.extract_tb(e.__traceback__)
         where = next((f"{os.path.basename(f.filename)}:{f.lineno}" for f in reversed(tb) if "/stable_baselines3/" in f.filename), "?")
         sig = {"construct": "oracle-construct-raises", "learn": "oracle-learn-raises", "save": "oracle-save-raises", "load": "oracle-load-raises"}.get(stage["at"], "oracle-model-run-raises")
-        return {"problems": [(sig, f"{stage['at']}() raises {type(e).__name__}: {e} (at {where}) for configuration {json.dumps(case.get('spec') or case['config'], default=str)[:400]}")],
+        return {"traceback": traceback.format_exc()[-2500:], "problems": [(sig, f"{stage['at']}() raises {type(e).__name__}: {e} (at {where}) for configuration {json.dumps(case.get('spec') or case['config'], default=str)[:400]}")],
                 "expr": "true"}
 
 
@@ -849,9 +849,27 @@ def gen_case(rng, i):
 
 
 def run_cases(chk, cases):
-    impls = [RUN[c["kind"]](c) for c in cases]
+    import traceback
+
+    impls = []
+    for c in cases:
+        try:
+            impls.append(RUN[c["kind"]](c))
+        except Exception as e:  # noqa: BLE001 - the implementation raised on a legal input: a finding about this input, the check goes on
+            tb = traceback.extract_tb(e.__traceback__)
+            where = next((f"{os.path.basename(f.filename)}:{f.lineno}" for f in reversed(tb) if "/stable_baselines3/" in f.filename), "harness")
+            impls.append({"raised": f"{type(e).__name__}: {e} (at {where})", "traceback": traceback.format_exc()[-2500:], "expr": "true"})
     vals = common.coq_eval_many(chk.pid, HEADER, [im["expr"] for im in impls], shard=200, procs=4)
-    results = [COMPARE[c["kind"]](c, im, v) for c, im, v in zip(cases, impls, vals)]
+    results = []
+    for c, im, v in zip(cases, impls, vals):
+        if "raised" in im:
+            results.append([("oracle-implementation-raised", "the implementation raises on a legal input: " + im["raised"])])
+            continue
+        try:
+            results.append(COMPARE[c["kind"]](c, im, v))
+        except Exception as e:  # noqa: BLE001
+            im["traceback"] = traceback.format_exc()[-2500:]
+            results.append([("oracle-implementation-raised", f"the implementation's output cannot be compared: {type(e).__name__}: {e}")])
     return impls, results
 
 
@@ -908,7 +926,7 @@ def main():
             if full in reported:
                 continue
             reported.add(full)
-            chk.violation(full, msg, {"case": c, "problems": probs[:6], "correspondence": "harness/c09.py vs Model.JsonCodec.data_to_json"}, found_input=is_oracle)
+            chk.violation(full, msg, {"case": c, "problems": probs[:6], "traceback": im.get("traceback"), "correspondence": "harness/c09.py vs Model.JsonCodec.data_to_json"}, found_input=is_oracle)
         if len(reported - {RESERVED_KEY_SIG, LEGACY_SIG}) >= 4:
             break
     chk.coverage["evaluations"] = len(cases)
